@@ -62,6 +62,22 @@ var (
 	showTotal  = regexp.MustCompile(`(?m)^total: (\d+) sources match the criteria`)
 )
 
+var vcaseRe = regexp.MustCompile(`vcase=(\d+)`)
+
+// foreign: the server holds partitions of another case (e.g. a held one its clean-up could not drop)
+func (r *runner) foreign(vc int) bool {
+	out, err := r.exec("SHOW PARTITIONS")
+	if err != nil {
+		return true
+	}
+	for _, m := range vcaseRe.FindAllStringSubmatch(out, -1) {
+		if int(num(m[1])) != vc {
+			return true
+		}
+	}
+	return false
+}
+
 func nondecreasing(ts []int64) bool {
 	for i := 1; i < len(ts); i++ {
 		if ts[i] < ts[i-1] {
